@@ -252,6 +252,48 @@ CLAIMED["C01"] = (
     "Partial claim.  The taint sources are integer parameters of the builtin modules and integer conversions of template values; arithmetic on other integers is out of scope.")
 
 # clauses added in round 8 (appended to the level text of the property)
+CLAIMED["C09"] = (
+    "sibling-agreement rule over the per-kind arms of ops::slice (def-use traces of the shared helpers' results through "
+    "iterator adaptors and closure captures) + constructor / error-exit inventory per match arm over MIR",
+    "Static check of the SHAPE around the two shared slicing helpers only: (S1) every call of the forward helper is consumed "
+    "alike in every operand arm - offset -> skip, length -> take, then step_by(step), traced through closure captures; (S2) "
+    "every call of the backward helper receives (start, stop, |step| of the tested step, the collected operand's own length) "
+    "and its indices are mapped to elements; (S3) the string arm never measures or cuts text in bytes; (S4) each arm builds "
+    "the result kind of its operand (string / bytes / tuple under is_tuple() / lazy list-like iterable); (S5) the only errors "
+    "slice builds are a non-integer bound (propagated conversion), a zero step, and an operand that cannot be sliced - none "
+    "inside an arm of a sliceable kind, no unwrap inside a slicing closure; (S6) both helpers get the same converted start / "
+    "stop in every arm.  These are necessary conditions: an arm that leaves the common pipeline (a 'contiguous bytes' fast "
+    "path with slice::get, a dropped step_by, a byte length for text, a list for a tuple) selects other elements than its "
+    "siblings.  NOT decided: the integer arithmetic inside get_offset_and_len / range_step_backwards, i.e. which elements "
+    "a given (len, start, stop, step) selects (on the pinned tree a negative step with a stop that resolves to index 0 still "
+    "includes element 0, unlike Python - observed, listed in DESIGN.md section 8, no rule decides it), and the negative-index "
+    "normalisation of subscripts.",
+    "DESIGN.md §3 C09",
+    "Partial claim (shape of the arms, not the selected elements).")
+
+CLAIMED["C10"] = (
+    "guard-fact (dominating condition) rule per text-shortening operation of the lexer + finite decision tables over the "
+    "marker enum / lstrip gate (setting x tag kind) extracted from MIR + who-passes-a-decoded-marker rule",
+    "Static check of the WIRING of the whitespace rules only: (E1) every operation of compiler::lexer that shortens template "
+    "text - str::trim*, the whitespace skipper, the lstrip helper, the newline skipper, newline slices, found by role - sits "
+    "under the condition the property names for its class: all-whitespace trimming only under a '-' marker (Whitespace::Remove "
+    "arm, a comparison with \"-\", or the pending-trim flag such a marker set); newline skipping only at a block / comment / "
+    "raw tag end without marker and under trim_blocks; lstrip only without marker and under lstrip_blocks through the gate; the "
+    "trailing newline cut once, in the constructor, with keep_trailing_newline off; a line-ending newline only for line "
+    "statements / comments; (E2) every match on the marker enum honours its three values (Remove -> trim of that side only, "
+    "Preserve -> nothing, Default -> only the setting of the same side); (E3) the lstrip gate's decision table over (setting x "
+    "tag kind): never for variable tags, never with the setting off, possible for block / comment tags; (E4) the tag ends "
+    "lexed by text comparison: '-' trims for block and variable ends, trim_blocks applies at block ends only and not behind a "
+    "marker; (E5) the newline skipper advances by one byte, behind a newline test, under trim_blocks, outside loops; (E6) the "
+    "pending-trim flag is cleared where it is consumed; (E7) the marker handed to a marker-consuming function is decoded from "
+    "the text, never a constant; (E8) no default delimiter literal in lexer code.  These are necessary conditions that "
+    "regressions of the rule interaction break ('+' folded into the default case, trim_blocks after variable tags, lstrip "
+    "for variable tags, a marker ignored at comment / raw ends).  NOT decided: which characters each primitive removes (CR/LF "
+    "order, start-of-line detection), the delimiter search (leftmost-longest tie-breaking among prefix-sharing custom "
+    "delimiters), byte-exact reproduction of the remaining text.",
+    "DESIGN.md §3 C10",
+    "Partial claim (wiring of the rules, not the characters removed).")
+
 ROUND8 = {
     "C01": "(P17) an instruction operand the interpreter uses as an index fits the table it indexes: every value the code generator can store at that payload position is a constant below the table's length (or one the consumer excludes itself), or a cast of a quantity under a dominating comparison that implies it.",
     "C02": "(S9b) a transform that carries the safe flag over through preserve_safety does so on every success return.",
@@ -286,8 +328,6 @@ ROUND9 = {
 
 NOT_APPLICABLE = {
     "C03": "equality of rendered output with a reference semantics over all programs x contexts quantifies over runtime values; its structural part (frame/capture/escape pairing, jump nesting) is decided under C05, nothing else is visible in the shape of the code, and a reference interpreter would be a different technique",
-    "C09": "Python slice semantics over (kind, len, start, stop, step) is integer arithmetic on runtime values: no sound static argument in reach bounds it; the panics the slicing code hid (empty / inverted / extreme bounds) were found by the C01 taint rule and repaired, but the selected elements are value-level and not claimed.  Its shape clauses (zero step is the only slicing error, the result kind follows the operand kind) are visible in ops::slice but every realistic regression sits in the offset arithmetic of get_offset_and_len / range_step_backwards, which no rule here decides: claiming the property through those clauses would be a claim in name only (DESIGN.md section 4)",
-    "C10": "byte-exact text reproduction and whitespace control under every delimiter configuration is string arithmetic over runtime text (lexer offsets); no clause of it is visible in the shape of the code beyond what C14 checks for span provenance, and a brittle text proxy would raise false alarms",
 }
 
 PENDING = "rule engine for this property is not finished / not yet validated both ways in this revision (see DESIGN.md §7); not claimed until it is"
